@@ -15,5 +15,5 @@ git -C /repo worktree add --detach $d/repo HEAD >/dev/null 2>&1
 # uncommitted (tracked) changes of /repo are carried over too
 git -C /repo diff HEAD | (cd $d/repo && git apply --allow-empty 2>/dev/null || true)
 if [ -n "$2" ]; then (cd $d/repo && git apply "$2"); fi
-rsync -a --exclude .git --exclude 'evidence/replay' /verif/ $d/verif/
+rsync -a --exclude .git --exclude 'evidence/replay' --exclude 'coq/Cases/*' --exclude 'build/data_*' /verif/ $d/verif/ || [ $? -eq 24 ]
 echo "$d ready"
